@@ -1,6 +1,6 @@
 (* C05 — built transactions conserve value exactly.  Pinned statements only (proofs: Builder/*Proofs.v). *)
 From CSL Require Import Base.Prelude Base.U64 Num.Value Deposits.Deposits Builder.Totals Builder.TotalsProofs
-  Builder.Change Builder.ChangeProofs Builder.Scenario Builder.ScenarioProofs Builder.MoreEntry Builder.MoreEntryProofs.
+  Builder.Change Builder.ChangeProofs Builder.Scenario Builder.ScenarioProofs Builder.MoreEntry Builder.MoreEntryProofs Builder.TerminationProofs Builder.DirectionProofs.
 From CSL Require Collateral.Collateral.
 From Coq Require Import Permutation.
 Local Open Scope N_scope.
@@ -123,6 +123,29 @@ Theorem C05_history2_balancing : forall (utxos : list (N * value)) (cfg : config
   ledger_balanced (c_pool_deposit cfg) (c_key_deposit cfg) (body_of (snd (fst (fst (run_op2 utxos x s c o))))).
 Proof. exact history2_balancing. Qed.
 Print Assumptions C05_history2_balancing.
+
+(* change only goes to the change address (finding C05-zero-quantity-change, /repo 5207e1d): a successful add_change
+   appends outputs at (change address, requested datum/script) and leaves every earlier output untouched *)
+Theorem C05_change_goes_to_change_address : forall (O : Type) (orc : @oracle O), oracle_u64 orc ->
+  forall (fuel : nat) (addr extra : N) (st : state) (o : O) (b : bool),
+  state_wf st -> out_res (add_change orc fuel addr extra st o) = Ok b ->
+  exists l, s_outputs (out_st (add_change orc fuel addr extra st o)) = s_outputs st ++ l /\
+            Forall (fun x => o_addr x = addr /\ o_extra x = extra) l.
+Proof. exact (@add_change_direction). Qed.
+Print Assumptions C05_change_goes_to_change_address.
+
+(* termination of the repaired change loop (finding C05-change-loop-progress, /repo f596a0b): with fuel above the total
+   asset quantity of change_left the model's loop never returns OutOfFuel, for any packing, prices and oracle *)
+Theorem C05_change_loop_terminates : forall (O : Type) (orc : @oracle O), oracle_u64 orc -> oracle_answers orc ->
+  forall (cfg0 : config) (addr extra : N) (fuel : nat) (cl : value) (nf : N) (s : state) (o : O),
+  WF cfg0 s -> value_wf cl -> ksum (value_keys cl) cl < N.of_nat fuel ->
+  out_res (change_while_loop orc fuel addr extra cl nf s o) <> OutOfFuel.
+Proof. exact (@change_loop_fuel_bound). Qed.
+Print Assumptions C05_change_loop_terminates.
+
+Theorem C05_recorded_oracle_answers : oracle_answers tape_oracle.
+Proof. exact tape_oracle_answers. Qed.
+Print Assumptions C05_recorded_oracle_answers.
 
 (* the rule does not depend on the order of inputs, outputs, certificates, withdrawals, proposals *)
 Theorem C05_order : forall (pd kd : N) (b b' : tx_body),
